@@ -1111,10 +1111,21 @@ class ReMatch(SymObject):
 
 
 def m_iter(it, xs):
+    from .interp import GenObject
+    if isinstance(xs, GenObject):
+        return xs
     return iter(it.iterate(xs))
 
 
 def m_next(it, i, *d):
+    from .interp import GenObject
+    if isinstance(i, GenObject):
+        try:
+            return i.next()
+        except RaiseEx as ex:
+            if d and isinstance(ex.exc, StopIteration):
+                return d[0]
+            raise
     try:
         return next(i)
     except StopIteration as ex:
